@@ -18,7 +18,7 @@ POSITIONS = [
     ("paragraph", b"{P}\n", "text"), ("heading", b"# {P}\n", "text"), ("list-item", b"* {P}\n* other\n", "text"), ("table-cell", b"| {P} | x |\n|---|---|\n| y | z |\n", "text"),
     ("quote", b"> {P}\n", "text"), ("emphasis", b"*{P}*\n", "text"), ("link-text", b"[{P}](http://x.y/)\n", "text"), ("link-title", b"[t](http://x.y/ \"{P}\")\n", "attr"),
     ("url", b"[t](http://x.y/{P})\n", "attr"), ("image-alt", b"![{P}](i.png)\n", "attr"), ("footnote", b"x[^f]\n\n[^f]: {P}\n", "text"), ("definition", b"term\n: {P}\n", "text"),
-    ("code-span", b"a `{P}` b\n", "verbatim"), ("code-block", b"```\n{P}\n```\n", "verbatim"), ("indented-code", b"    {P}\n", "verbatim"), ("math", b"a ${P}$ b\n", "verbatim"),
+    ("code-span", b"a `{P}` b\n", "verbatim"), ("code-block", b"```\n{P}\n```\n", "verbatim"), ("code-block-with-language", b"```python\n{P}\n```\n", "verbatim"), ("indented-code", b"    {P}\n", "verbatim"), ("math", b"a ${P}$ b\n", "verbatim"),
     # text that is written more than once (first use / re-use paths of the note writers)
     ("abbreviation-short-form-reused", b"[>{P}]: expansion\n\nuse [>{P}] and again [>{P}] end\n", "text"),
     ("glossary-term-reused", b"[?{P}]: definition\n\nuse [?{P}] and again [?{P}] end\n", "text"),
@@ -78,6 +78,7 @@ def latex_structure(tex):
             continue
         if tex.startswith(b"\\end{", i):
             j = tex.find(b"}", i); env = tex[i + 5:j]
+            if env == b"document" and not stack: i = j + 1; continue          # a complete document opens its document environment inside the \\input leader file
             if not stack or stack[-1] != env: return "\\end{%s} closes %r" % (env.decode("latin-1"), stack[-1:] )
             stack.pop(); i = j + 1; continue
         c = tex[i:i + 1]
@@ -182,7 +183,7 @@ def make_case():
                     return (pmap.h64(doc + bytes([fi])), [("text:latex:glossary-key-with-reserved-character", "LaTeX uses the short form verbatim as a key: %r" % re.findall(rb"\\gls\{[^}]*\}?", out)[:1], case_d)], dict(judged=1))
             err = latex_structure(out)
             berr = latex_structure(base)
-            if err and not berr:
+            if err and (not berr or berr == err):          # the same error in the neighbouring document means the position itself is rendered unbalanced, not that the probe did it
                 v.append((sig("nesting"), "LaTeX structure: %s for %r" % (err, doc), case_d))
             m = re.search(rb"qz01(.*?)qz02", out, re.S)
             if not m:
@@ -195,7 +196,7 @@ def make_case():
                     if mid.strip() not in RESERVED_LATEX[c]:
                         if out.count(b"\\") - base.count(b"\\") > 3 or b"\\begin" in mid: return (pmap.h64(doc + bytes([fi])), [], dict(structure_changed=1))
                         v.append((sig("reserved-char-raw-or-misescaped"), "LaTeX carries %r for the reserved character %r" % (mid, c), case_d))
-                elif kind == "verbatim" and pname in ("code-block", "indented-code"):
+                elif kind == "verbatim" and pname in ("code-block", "code-block-with-language", "indented-code"):
                     if mid.strip() != c: v.append((sig("verbatim-altered"), "verbatim region carries %r for %r" % (mid, c), case_d))
                 elif c in QUOTE_OK and mid.strip() in QUOTE_OK[c]:
                     pass
